@@ -85,6 +85,7 @@ LOWERABLE = {
 }
 _FRESH = [0]
 NOT_FOLLOWED = set()
+LOWERED = set()     # closures traversed inline at a combinator call (paths.LOWERABLE)
 
 
 class PathEnum:
@@ -378,6 +379,9 @@ class PathEnum:
                     ct = ("agg", "std::ops::ControlFlow", "Break", (("residual", args[0]),))
                 elif path == "std::ops::FromResidual::from_residual" and args and args[0][0] == "agg" and args[0][2] == "Err":
                     ct = args[0]
+                elif path in ("std::option::Option::<T>::ok_or",) and len(args) == 2 and args[0][0] == "agg" and args[0][2] in ("Some", "None"):
+                    # ok_or on a literal Option (the result of a combinator traversed inline)
+                    ct = _ok(args[0][3][0]) if args[0][2] == "Some" else _err(args[1])
                 elif path == "std::ops::FromResidual::from_residual" and ((c.get("self_ty") or {}).get("path") == "std::option::Option"):
                     ct = ("agg", "std::option::Option", "None", ())  # `?` on an Option propagates None
                 # a callee that receives &mut to a tracked place may change it
@@ -499,6 +503,7 @@ class PathEnum:
                 self._walk(t["target"], env2, conds_b, trace, events_b, onpath)
             else:
                 clo = closure_of(how[1])
+                LOWERED.add(clo[1])
                 callee = self.facts.fns[clo[1]]
                 ty1 = callee.locals[1]["ty"] if callee.nargs >= 1 else {}
                 self_arg = ("ref", clo, bool(ty1.get("mut"))) if ty1.get("k") == "ref" else clo
